@@ -8,7 +8,7 @@ META = {
     'refill': True,      # cases presented in a reused buffer are followed by a refill of that buffer (runner)
     'rule': ('history = rdp_fixed(P, k) for every k in 0..n+1 on one curve x Distance x Order; consecutive members are '
              'checked for exact size min(max(k,2),n), nesting, the gained index being a farthest interior point of its '
-             'segment (independent long-double geometry, noise floor 64*eps*(|coords|max+chord)) and that segment attaining the maximal ordering score '
+             'segment (independent long-double geometry, noise floor 64*eps*(largest coordinate difference to the segment start + chord)) and that segment attaining the maximal ordering score '
              '(recomputed with the saved primitives on the same slice, ties within 1e-12 relative accepted) among '
              'retained segments with interior points; an online monitor on the _rdp_fixed loop additionally asserts '
              'that the entry about to be popped carries the maximal stored priority. distinct = digest(curve, '
@@ -42,7 +42,7 @@ def priority_model(seg, distname, ordname):
     if not np.all(np.isfinite(g)):
         return None
     base = float(np.hypot(*(np.asarray(seg[-1], float) - np.asarray(seg[0], float))))
-    sc = float(np.max(np.abs(seg))) + base
+    sc = float(np.max(np.abs(np.asarray(seg, dtype=float) - np.asarray(seg[0], dtype=float)))) + base      # translation invariant
     if ordname == 'triangle':
         v = 0.5 * base * float(g.max())
         return v, 1e-9 * v + 64 * EPS * sc * base
@@ -161,7 +161,7 @@ def run_chain(ctx, mods, case, pts, dn, on):
             seg = pts[a:b + 1]
             dd = geo_dist(seg, dn)       # independent geometry (long double), not the library's distance primitive
             dmax = float(np.max(dd[1:-1]))
-            scale = float(np.max(np.abs(seg))) + float(np.hypot(*(np.asarray(seg[-1], float) - np.asarray(seg[0], float))))
+            scale = float(np.max(np.abs(np.asarray(seg, dtype=float) - np.asarray(seg[0], dtype=float)))) + float(np.hypot(*(np.asarray(seg[-1], float) - np.asarray(seg[0], float))))
             tol = max(64 * EPS * scale, EPS)
             slack = (dmax - float(dd[g - a])) / tol
             ctx.mx('farthest_slack_over_tol', slack)
